@@ -78,7 +78,11 @@ class Cache:
         of things that are convertable to strings.
         """
         if isinstance(arg, np.ndarray):
-            self.ahash.update(arg.view(np.uint8))
+            # include dtype and shape (arrays with identical bytes are
+            # not identical arguments); `tobytes` also works for
+            # non-contiguous arrays
+            self.ahash.update(f"{arg.dtype}{arg.shape}".encode('utf-8'))
+            self.ahash.update(arg.tobytes())
         elif isinstance(arg, list):
             [self._update_hash(a) for a in arg]
         else:
